@@ -409,8 +409,11 @@ def _encoder(cx, enc, mod, alpha_name, len_name):
     cx.need(len(loops) == 1, "R20c", enc, "encoder: expected one while loop over the quotient")
     loop = loops[0]
     t = loop.test
-    cond_ok = is_name(t, num) or (isinstance(t, ast.Compare) and len(t.ops) == 1 and is_name(t.left, num) and const(t.comparators[0], int)
-                                  and t.comparators[0].value == 0 and isinstance(t.ops[0], (ast.Gt, ast.NotEq)))
+    # `number` / `number > 0` / `number != 0`, however spelled (mirrored, negated)
+    from sa.guards import canon_test
+    ct = canon_test(t)
+    cond_ok = len(ct) == 1 and next(iter(ct)) in (("expr", num, "", True), ("<", "0", num, True), ("==", *sorted(("0", num)), False), ("<", num, "1", False),
+                                                   ("expr", f"bool({num})", "", True))
     cx.ob("R20c", loop, cond_ok, "loop runs until the quotient is zero" if cond_ok else f"loop condition `{norm(t)}` stops before all digits are emitted (or never)")
     # quotient/remainder
     digit = None
